@@ -414,3 +414,22 @@ func UnreleasedExit(fn *ssa.Function, lock ssa.Instruction) ssa.Instruction {
 	}
 	return nil
 }
+
+// NonNilGuard reports whether block b is only reached when the value rendered
+// as `path` was tested non-nil.
+func NonNilGuard(b *ssa.BasicBlock, path string) bool {
+	for _, g := range GuardsOf(b) {
+		bo, ok := g.Cond.(*ssa.BinOp)
+		if !ok {
+			continue
+		}
+		c, ok := bo.Y.(*ssa.Const)
+		if !ok || !c.IsNil() || Expr(bo.X) != path {
+			continue
+		}
+		if (bo.Op == token.NEQ && g.Polarity) || (bo.Op == token.EQL && !g.Polarity) {
+			return true
+		}
+	}
+	return false
+}
